@@ -8,6 +8,15 @@
 //!
 //! Oracle: an independent RFC 8945 signer/verifier written below on top of
 //! `ring::hmac` only (sections "REFERENCE"). It never calls `domain`.
+//!
+//! The two transport wrappers (`net::client::tsig::Connection`,
+//! `TsigMiddlewareSvc`) are driven in section "THE TRANSPORT WRAPPERS":
+//! the client over every behaviour of a scripted upstream (compose paths,
+//! request modifications, 1..3 compositions with changed ID / on clones,
+//! answer to the last or an earlier composition), the middleware over every
+//! request mutation and over the inner service's responses (header flags x
+//! rcode x size class x target type x transport), every emitted response
+//! being verified by the reference client.
 #![allow(clippy::too_many_arguments, clippy::type_complexity)]
 
 use std::collections::{BTreeMap, HashMap};
@@ -2539,8 +2548,18 @@ struct UpShared {
     mode: u8,
     modify: u8,
     script: Vec<Step>,
+    /// further compositions of the request by the upstream, and which of all
+    /// compositions the peer answers (None: the last one)
+    recompose: Vec<Recomp>,
+    reply_to: Option<usize>,
     pos: usize,
+    /// the request as composed last (what an honest peer answers)
     signed_request: Option<Vec<u8>>,
+    /// every composition in order
+    composed: Vec<Vec<u8>>,
+    /// the peer's view: it answers composition `reply_to`
+    peer_rc: Option<RefClient>,
+    peer_id: u16,
     compose_err: Option<String>,
     /// what the wrapper's pass-through accessors said after `modify`
     accessors: Option<(u16, bool)>,
@@ -2552,11 +2571,21 @@ struct UpShared {
 }
 
 impl UpShared {
-    fn set_request(&mut self, bytes: Vec<u8>) {
-        if let Locate::Found(t) = ref_locate(&bytes) {
+    /// All compositions the upstream made. The client under test must hold
+    /// the state of the LAST composition (those are the octets on the wire
+    /// last); the peer answers composition `reply_to`.
+    fn set_requests(&mut self, all: Vec<Vec<u8>>) {
+        let last = all.len() - 1;
+        if let Locate::Found(t) = ref_locate(&all[last]) {
             self.rc = Some(RefClient::new(&self.rk, self.seq, &t.mac));
         }
-        self.signed_request = Some(bytes);
+        let r = self.reply_to.unwrap_or(last).min(last);
+        if let Locate::Found(t) = ref_locate(&all[r]) {
+            self.peer_rc = Some(RefClient::new(&self.rk, self.seq, &t.mac));
+        }
+        self.peer_id = get16(&all[r], 0);
+        self.signed_request = Some(all[last].clone());
+        self.composed = all;
     }
 
     /// The next message of the scripted peer, None at the end of the stream.
@@ -2564,8 +2593,11 @@ impl UpShared {
         let step = self.script.get(self.pos)?.clone();
         let depth = self.pos;
         self.pos += 1;
-        let rc = self.rc.clone()?;
-        let id = get16(self.signed_request.as_ref()?, 0);
+        // the first answer comes from the peer's view of the request; once it
+        // has been accepted the two views coincide
+        let rc = if depth == 0 { self.rc.as_ref()?; self.peer_rc.clone()? } else { self.rc.clone()? };
+        self.signed_request.as_ref()?;
+        let id = self.peer_id;
         let now = real_now();
         let honest = |rk: &RefKey, at: u64| honest_answer(rk, &rc, id, depth, at);
         let (name, msg) = match step {
@@ -2647,6 +2679,69 @@ fn compose_multi<CR: ComposeRequestMulti>(r: &CR, mode: u8) -> Result<Vec<u8>, S
     }
 }
 
+/// One further composition of the request by the upstream transport (the
+/// datagram transport composes again for every retry after picking a new ID,
+/// the stream transport composes once to look at the question and once to
+/// send, the multi-connection transports hand a clone to every attempt).
+#[derive(Clone, Debug, PartialEq)]
+struct Recomp {
+    /// header ID set before composing; None: header unchanged
+    id: Option<u16>,
+    mode: u8,
+    /// composed on a clone of the request which is dropped afterwards
+    on_clone: bool,
+}
+impl Recomp {
+    fn json(&self) -> Value {
+        json!({"id": self.id, "mode": self.mode, "on_clone": self.on_clone})
+    }
+    fn from_json(v: &Value) -> Recomp {
+        Recomp { id: v["id"].as_u64().map(|x| x as u16), mode: v["mode"].as_u64().unwrap() as u8, on_clone: v["on_clone"].as_bool().unwrap() }
+    }
+}
+
+/// Everything an upstream does to a request before the answer arrives: the
+/// modification, the first composition and every further one. Generic, so
+/// that the wrapped request and its unsigned twin go through the same steps.
+fn plan_single<CR: ComposeRequest + Clone>(r: &mut CR, modify: u8, mode: u8, more: &[Recomp]) -> Result<Vec<Vec<u8>>, String> {
+    modify_single(r, modify);
+    let mut out = vec![compose_single(r, mode)?];
+    for rc in more {
+        if rc.on_clone {
+            let mut c = r.clone();
+            if let Some(id) = rc.id {
+                c.header_mut().set_id(id);
+            }
+            out.push(compose_single(&c, rc.mode)?);
+        } else {
+            if let Some(id) = rc.id {
+                r.header_mut().set_id(id);
+            }
+            out.push(compose_single(r, rc.mode)?);
+        }
+    }
+    Ok(out)
+}
+fn plan_multi<CR: ComposeRequestMulti + Clone>(r: &mut CR, modify: u8, mode: u8, more: &[Recomp]) -> Result<Vec<Vec<u8>>, String> {
+    modify_multi(r, modify);
+    let mut out = vec![compose_multi(r, mode)?];
+    for rc in more {
+        if rc.on_clone {
+            let mut c = r.clone();
+            if let Some(id) = rc.id {
+                c.header_mut().set_id(id);
+            }
+            out.push(compose_multi(&c, rc.mode)?);
+        } else {
+            if let Some(id) = rc.id {
+                r.header_mut().set_id(id);
+            }
+            out.push(compose_multi(r, rc.mode)?);
+        }
+    }
+    Ok(out)
+}
+
 #[derive(Clone)]
 struct MockUp(Arc<Mutex<UpShared>>);
 
@@ -2669,25 +2764,26 @@ impl<CR> std::fmt::Debug for MockGetMulti<CR> {
     }
 }
 
-impl<CR: ComposeRequest + 'static> SendRequest<CR> for MockUp {
+impl<CR: ComposeRequest + Clone + 'static> SendRequest<CR> for MockUp {
     fn send_request(&self, request_msg: CR) -> Box<dyn GetResponse + Send + Sync> {
         Box::new(MockGet { req: request_msg, sh: self.0.clone() })
     }
 }
-impl<CR: ComposeRequestMulti + 'static> SendRequestMulti<CR> for MockUp {
+impl<CR: ComposeRequestMulti + Clone + 'static> SendRequestMulti<CR> for MockUp {
     fn send_request(&self, request_msg: CR) -> Box<dyn GetResponseMulti + Send + Sync> {
         Box::new(MockGetMulti { req: request_msg, sh: self.0.clone() })
     }
 }
 
-impl<CR: ComposeRequest> GetResponse for MockGet<CR> {
+impl<CR: ComposeRequest + Clone> GetResponse for MockGet<CR> {
     fn get_response(&mut self) -> Pin<Box<dyn Future<Output = Result<Message<Bytes>, ClientError>> + Send + Sync + '_>> {
         let mut sh = self.sh.lock().unwrap();
         if sh.signed_request.is_none() {
-            modify_single(&mut self.req, sh.modify);
+            let more = sh.recompose.clone();
+            let all = plan_single(&mut self.req, sh.modify, sh.mode, &more);
             sh.accessors = Some((self.req.header().id(), self.req.dnssec_ok()));
-            match compose_single(&self.req, sh.mode) {
-                Ok(b) => sh.set_request(b),
+            match all {
+                Ok(b) => sh.set_requests(b),
                 Err(e) => {
                     sh.compose_err = Some(e);
                     return Box::pin(std::future::ready(Err(ClientError::ConnectionClosed)));
@@ -2705,14 +2801,15 @@ impl<CR: ComposeRequest> GetResponse for MockGet<CR> {
         Box::pin(std::future::ready(out))
     }
 }
-impl<CR: ComposeRequestMulti> GetResponseMulti for MockGetMulti<CR> {
+impl<CR: ComposeRequestMulti + Clone> GetResponseMulti for MockGetMulti<CR> {
     fn get_response(&mut self) -> Pin<Box<dyn Future<Output = Result<Option<Message<Bytes>>, ClientError>> + Send + Sync + '_>> {
         let mut sh = self.sh.lock().unwrap();
         if sh.signed_request.is_none() {
-            modify_multi(&mut self.req, sh.modify);
+            let more = sh.recompose.clone();
+            let all = plan_multi(&mut self.req, sh.modify, sh.mode, &more);
             sh.accessors = Some((self.req.header().id(), self.req.dnssec_ok()));
-            match compose_multi(&self.req, sh.mode) {
-                Ok(b) => sh.set_request(b),
+            match all {
+                Ok(b) => sh.set_requests(b),
                 Err(e) => {
                     sh.compose_err = Some(e);
                     return Box::pin(std::future::ready(Err(ClientError::ConnectionClosed)));
@@ -2736,11 +2833,14 @@ struct TransportCase {
     mode: u8,
     modify: u8,
     script: Vec<Step>,
+    recompose: Vec<Recomp>,
+    reply_to: Option<usize>,
 }
 impl TransportCase {
     fn json(&self) -> Value {
         json!({"kind": "transport-client", "key": self.key.json(), "multi": self.multi, "shape": self.shape, "mode": self.mode,
-               "modify": self.modify, "script": self.script.iter().map(|s| s.json()).collect::<Vec<_>>()})
+               "modify": self.modify, "script": self.script.iter().map(|s| s.json()).collect::<Vec<_>>(),
+               "recompose": self.recompose.iter().map(|r| r.json()).collect::<Vec<_>>(), "reply_to": self.reply_to})
     }
     fn from_json(v: &Value) -> TransportCase {
         TransportCase {
@@ -2750,6 +2850,8 @@ impl TransportCase {
             mode: v["mode"].as_u64().unwrap() as u8,
             modify: v["modify"].as_u64().unwrap() as u8,
             script: v["script"].as_array().unwrap().iter().map(Step::from_json).collect(),
+            recompose: v["recompose"].as_array().map(|a| a.iter().map(Recomp::from_json).collect()).unwrap_or_default(),
+            reply_to: v["reply_to"].as_u64().map(|x| x as usize),
         }
     }
 }
@@ -2779,8 +2881,8 @@ fn transport_case(ctx: &Ctx, l: &mut Local, c: &TransportCase) -> TransportResul
     };
     let rk = c.key.refkey();
     let sh = Arc::new(Mutex::new(UpShared {
-        rk: rk.clone(), seq: c.multi, mode: c.mode, modify: c.modify, script: c.script.clone(), pos: 0, signed_request: None,
-        compose_err: None, accessors: None, is_answer: None, rc: None, last_signed: None, produced: Vec::new(), exhausted: false,
+        rk: rk.clone(), seq: c.multi, mode: c.mode, modify: c.modify, script: c.script.clone(), recompose: c.recompose.clone(), reply_to: c.reply_to,
+        pos: 0, signed_request: None, composed: Vec::new(), peer_rc: None, peer_id: 0, compose_err: None, accessors: None, is_answer: None, rc: None, last_signed: None, produced: Vec::new(), exhausted: false,
     }));
     let mut raw = shape(c.shape, false, 0x6A6A, 0, 4);
     if c.multi {
@@ -2791,18 +2893,19 @@ fn transport_case(ctx: &Ctx, l: &mut Local, c: &TransportCase) -> TransportResul
     let conn = TsigConnection::new(k.clone(), MockUp(sh.clone()));
     let t0 = real_now();
     // what the wrapped request would have put on the wire without TSIG
-    let (presign, twin_acc, twin_is_answer): (Result<Vec<u8>, String>, (u16, bool), Box<dyn Fn(&[u8]) -> Option<bool>>) = if c.multi {
+    // (one entry per composition the upstream makes)
+    let (presign, twin_acc, twin_is_answer): (Result<Vec<Vec<u8>>, String>, (u16, bool), Box<dyn Fn(&[u8]) -> Option<bool>>) = if c.multi {
         let mut twin = PlainReqMulti::new(Message::from_octets(raw.clone()).unwrap()).unwrap();
-        modify_multi(&mut twin, c.modify);
+        let all = plan_multi(&mut twin, c.modify, c.mode, &c.recompose);
         let acc = (twin.header().id(), twin.dnssec_ok());
-        (compose_multi(&twin, c.mode), acc, Box::new(move |m: &[u8]| Message::from_slice(m).ok().map(|x| twin.is_answer(x))))
+        (all, acc, Box::new(move |m: &[u8]| Message::from_slice(m).ok().map(|x| twin.is_answer(x))))
     } else {
         let mut twin = PlainReq::new(Message::from_octets(raw.clone()).unwrap()).unwrap();
-        modify_single(&mut twin, c.modify);
+        let all = plan_single(&mut twin, c.modify, c.mode, &c.recompose);
         let acc = (twin.header().id(), twin.dnssec_ok());
-        (compose_single(&twin, c.mode), acc, Box::new(move |m: &[u8]| Message::from_slice(m).ok().map(|x| twin.is_answer(x))))
+        (all, acc, Box::new(move |m: &[u8]| Message::from_slice(m).ok().map(|x| twin.is_answer(x))))
     };
-    let presign = match presign {
+    let presigns = match presign {
         Ok(p) => p,
         Err(_) => return res,
     };
@@ -2868,23 +2971,30 @@ fn transport_case(ctx: &Ctx, l: &mut Local, c: &TransportCase) -> TransportResul
         }
         if !request_checked {
             request_checked = true;
-            // the request the transport would have sent
-            let signed = match &g.signed_request {
-                Some(s) => s.clone(),
-                None => return res,
-            };
-            let time = match signed_time_in(&signed, t0, t1) {
-                Some(t) => t,
-                None => {
-                    violate(ctx, &format!("C11|{role}|request|signed-output|time-signed-not-the-current-time"), "the request is not signed with the current time (or carries no well placed TSIG)", &replay);
-                    return res;
-                }
-            };
-            if check_signed_by_lib(ctx, role, "request", &rk, &[], None, &presign, &signed, false, time, 300, &replay).is_none() {
+            // the requests the transport would have sent: every composition
+            // must be a correctly signed request of its own
+            if g.signed_request.is_none() {
                 return res;
             }
-            l.c("transport request MAC equals reference");
-            l.distinct.push(fnv(format!("req{}{:?}{}{}{}", c.key.tag(), c.script, c.mode, c.modify, c.shape).as_bytes()));
+            if g.composed.len() != presigns.len() {
+                violate(ctx, "C11|machinery|compositions-of-wrapper-and-twin-differ", "the wrapped request and its twin went through different plans", &replay);
+                return res;
+            }
+            for (j, (signed, presign)) in g.composed.iter().zip(&presigns).enumerate() {
+                let op = if j == 0 { "request" } else { "request(composed-again)" };
+                let time = match signed_time_in(signed, t0, t1) {
+                    Some(t) => t,
+                    None => {
+                        violate(ctx, &format!("C11|{role}|{op}|signed-output|time-signed-not-the-current-time"), "the request is not signed with the current time (or carries no well placed TSIG)", &replay);
+                        return res;
+                    }
+                };
+                if check_signed_by_lib(ctx, role, op, &rk, &[], None, presign, signed, false, time, 300, &replay).is_none() {
+                    return res;
+                }
+                l.c(if j == 0 { "transport request MAC equals reference" } else { "transport request composed again: MAC equals reference" });
+            }
+            l.distinct.push(fnv(format!("req{}{:?}{}{}{}{:?}{:?}", c.key.tag(), c.script, c.mode, c.modify, c.shape, c.recompose, c.reply_to).as_bytes()));
             if g.accessors != Some(twin_acc) {
                 violate(ctx, &format!("C11|{role}|request|pass-through-accessors"), &format!("header id / dnssec_ok through the wrapper {:?}, on the wrapped request {:?}", g.accessors, twin_acc), &replay);
             }
@@ -2923,8 +3033,20 @@ fn transport_case(ctx: &Ctx, l: &mut Local, c: &TransportCase) -> TransportResul
             _ => Cls::Other,
         };
         l.lib_cls[3][cls as usize] += 1;
-        l.distinct.push(fnv(format!("{}{:?}{}{}{}{:?}", c.key.tag(), c.script, c.mode, c.modify, c.shape, i).as_bytes()));
-        let agreed = judge(ctx, role, "get_response", &exp, cls, &name, &replay);
+        l.distinct.push(fnv(format!("{}{:?}{}{}{}{:?}{:?}{:?}", c.key.tag(), c.script, c.mode, c.modify, c.shape, i, c.recompose, c.reply_to).as_bytes()));
+        // which composition the answer belongs to is part of the class
+        let last = g.composed.len().saturating_sub(1);
+        let op = if g.composed.len() <= 1 {
+            "get_response".to_string()
+        } else if c.reply_to.unwrap_or(last) >= last {
+            format!("get_response(request-composed-{}x,answer-to-the-last-composition)", g.composed.len())
+        } else {
+            format!("get_response(request-composed-{}x,answer-to-an-earlier-composition)", g.composed.len())
+        };
+        if g.composed.len() > 1 {
+            l.c(&format!("transport: {} answer to a re-composed request: reference {:?}", if c.reply_to.unwrap_or(last) >= last { "last-composition" } else { "earlier-composition" }, exp.primary));
+        }
+        let agreed = judge(ctx, role, &op, &exp, cls, &name, &replay);
         if !(agreed && exp.primary == cls) {
             return res;
         }
@@ -2975,7 +3097,7 @@ fn run_client_transport(ctx: &Arc<Ctx>, g: &Glob, wd: &Watchdog) -> Value {
             for mode in 0..3u8 {
                 for modify in 0..4u8 {
                     for o in [-400i64, -200, 0, 200, 400] {
-                        transport_case(ctx, &mut l, &TransportCase { key: kv.clone(), multi: false, shape: shape_id, mode, modify, script: vec![Step::TimeOff(o)] });
+                        transport_case(ctx, &mut l, &TransportCase { key: kv.clone(), multi: false, shape: shape_id, mode, modify, script: vec![Step::TimeOff(o)], recompose: Vec::new(), reply_to: None });
                         bump("single honest/offset cases", 1);
                     }
                 }
@@ -2987,7 +3109,7 @@ fn run_client_transport(ctx: &Arc<Ctx>, g: &Glob, wd: &Watchdog) -> Value {
             for mk in [0usize, 1] {
                 for i in 0..if mk == 0 { sizes.0 } else { sizes.1 } {
                     let step = if mk == 0 { Step::Structural(i) } else { Step::Bit(i) };
-                    let r = transport_case(ctx, &mut l, &TransportCase { key: kv.clone(), multi: false, shape: 0, mode: 0, modify: 0, script: vec![step] });
+                    let r = transport_case(ctx, &mut l, &TransportCase { key: kv.clone(), multi: false, shape: 0, mode: 0, modify: 0, script: vec![step], recompose: Vec::new(), reply_to: None });
                     if r.exhausted {
                         violate(ctx, "C11|machinery|mutation-menu-size", "menu shorter than computed", &|| json!({"kind": "job"}));
                         break;
@@ -3009,7 +3131,7 @@ fn run_client_transport(ctx: &Arc<Ctx>, g: &Glob, wd: &Watchdog) -> Value {
                         }
                         let mut q = p.clone();
                         q.push(Step::Sym(sym));
-                        let r = transport_case(ctx, &mut l, &TransportCase { key: kv.clone(), multi: true, shape: 0, mode, modify: if mode == 0 { 0 } else { 1 }, script: q.clone() });
+                        let r = transport_case(ctx, &mut l, &TransportCase { key: kv.clone(), multi: true, shape: 0, mode, modify: if mode == 0 { 0 } else { 1 }, script: q.clone(), recompose: Vec::new(), reply_to: None });
                         bump("stream patterns", 1);
                         if r.all_accepted {
                             next.push(q);
@@ -3027,7 +3149,7 @@ fn run_client_transport(ctx: &Arc<Ctx>, g: &Glob, wd: &Watchdog) -> Value {
                     for i in 0..if mk == 0 { sizes.0 } else { sizes.1 } {
                         let mut script = pre.clone();
                         script.push(if mk == 0 { Step::Structural(i) } else { Step::Bit(i) });
-                        let r = transport_case(ctx, &mut l, &TransportCase { key: kv.clone(), multi: true, shape: 0, mode: 0, modify: 0, script });
+                        let r = transport_case(ctx, &mut l, &TransportCase { key: kv.clone(), multi: true, shape: 0, mode: 0, modify: 0, script, recompose: Vec::new(), reply_to: None });
                         if r.exhausted {
                             violate(ctx, "C11|machinery|mutation-menu-size", "menu shorter than computed", &|| json!({"kind": "job"}));
                             break;
@@ -3045,8 +3167,47 @@ fn run_client_transport(ctx: &Arc<Ctx>, g: &Glob, wd: &Watchdog) -> Value {
                     if let Some(t) = tail {
                         script.push(Step::Sym(t));
                     }
-                    transport_case(ctx, &mut l, &TransportCase { key: kv.clone(), multi: true, shape: 0, mode: 0, modify: 0, script });
+                    transport_case(ctx, &mut l, &TransportCase { key: kv.clone(), multi: true, shape: 0, mode: 0, modify: 0, script, recompose: Vec::new(), reply_to: None });
                     bump("stream unsigned-run cases", 1);
+                }
+            }
+        }
+        // (e) the upstream composes the request more than once before the
+        // answer arrives: every plan of 1 or 2 further compositions over
+        // {header unchanged, new ID} x {on the request itself, on a clone that
+        // is dropped} x compose paths; the peer answers the last composition
+        // (honest) or an earlier one (signed over a request MAC the client no
+        // longer holds unless the octets were the same)
+        let extra_modes: &[u8] = if quick { &[0, 2] } else { &[0, 1, 2] };
+        let mut menu: Vec<(bool, bool, u8)> = Vec::new();
+        for new_id in [false, true] {
+            for on_clone in [false, true] {
+                for &mode in extra_modes {
+                    menu.push((new_id, on_clone, mode));
+                }
+            }
+        }
+        let mk = |pos: usize, e: &(bool, bool, u8)| Recomp { id: if e.0 { Some(0x3100 + 0x0111 * pos as u16) } else { None }, mode: e.2, on_clone: e.1 };
+        let mut plans: Vec<Vec<Recomp>> = Vec::new();
+        for a in &menu {
+            plans.push(vec![mk(1, a)]);
+            for b in &menu {
+                plans.push(vec![mk(1, a), mk(2, b)]);
+            }
+        }
+        for (pi, plan) in plans.iter().enumerate() {
+            let firsts: Vec<(u8, u8)> = if quick { vec![[(0u8, 0u8), (2, 1)][pi % 2]] } else { vec![(0, 0), (1, 0), (2, 1), (0, 3)] };
+            for (mode, modify) in firsts {
+                for reply_to in 0..=plan.len() {
+                    let reply = if reply_to == plan.len() { None } else { Some(reply_to) };
+                    for script in [vec![Step::TimeOff(0)], vec![Step::Sym(b'B')]] {
+                        transport_case(ctx, &mut l, &TransportCase { key: kv.clone(), multi: false, shape: if pi % 3 == 0 { 3 } else { 0 }, mode, modify, script, recompose: plan.clone(), reply_to: reply });
+                        bump("request composed 2x/3x: single answer cases", 1);
+                    }
+                    for script in [vec![Step::Sym(b'S')], vec![Step::Sym(b'S'), Step::Sym(b'U'), Step::Sym(b'S')], vec![Step::Sym(b'B')]] {
+                        transport_case(ctx, &mut l, &TransportCase { key: kv.clone(), multi: true, shape: 0, mode, modify, script, recompose: plan.clone(), reply_to: reply });
+                        bump("request composed 2x/3x: stream cases", 1);
+                    }
                 }
             }
         }
@@ -3055,7 +3216,8 @@ fn run_client_transport(ctx: &Arc<Ctx>, g: &Glob, wd: &Watchdog) -> Value {
     });
     g_sample(|| json!({"runner": "client-transport", "what": "net::client::tsig::Connection over a scripted SendRequest/SendRequestMulti upstream answering from the reference signer",
         "compose_modes": ["to_message", "to_vec / append_message(StaticCompressor)", "append_message(Vec)"],
-        "request_modifications_by_the_upstream": ["none", "header_mut().set_id", "set_udp_payload_size+set_dnssec_ok", "add_opt+set_id"]}));
+        "request_modifications_by_the_upstream": ["none", "header_mut().set_id", "set_udp_payload_size+set_dnssec_ok", "add_opt+set_id"],
+        "compositions_by_the_upstream": "1 (parts a-d); part e: 2 and 3 compositions, each further one over {header unchanged, new ID} x {on the request, on a clone dropped afterwards} x compose paths; every composition must be a correctly signed request (reference MAC); the peer answers the last composition (must be accepted) or an earlier one (verdict of the reference client holding the MAC of the last composition), honest and with a bad MAC, single answers and streams S / S U S"}));
     json!(counts.into_inner().unwrap())
 }
 
@@ -3465,6 +3627,454 @@ fn run_middleware(ctx: &Arc<Ctx>, g: &Glob, wd: &Watchdog) -> Value {
 }
 
 // ---------------------------------------------------------------------
+// TsigMiddlewareSvc: what the inner service answers
+//   header flags x rcode x size class x target type x transport context;
+//   oracle: the reference CLIENT (RFC 8945 5.3 verification written above)
+//   must accept every response the middleware emits, in order.
+// ---------------------------------------------------------------------
+
+/// Message capacity of a response target behind `StreamTarget`.
+trait Cap {
+    const CAP: usize;
+    const NAME: &'static str;
+}
+impl Cap for Vec<u8> {
+    const CAP: usize = 65535;
+    const NAME: &'static str = "Vec<u8> (65535 octets through StreamTarget)";
+}
+
+/// A response target that holds a 512-octet message (plus the two length
+/// octets of `StreamTarget`) and refuses anything longer.
+#[derive(Clone, Debug, Default)]
+struct Lim512(Vec<u8>);
+impl Cap for Lim512 {
+    const CAP: usize = 512;
+    const NAME: &'static str = "bounded target of 512 octets";
+}
+impl OctetsBuilder for Lim512 {
+    type AppendError = octseq::builder::ShortBuf;
+    fn append_slice(&mut self, s: &[u8]) -> Result<(), Self::AppendError> {
+        if self.0.len() + s.len() > Self::CAP + 2 {
+            return Err(octseq::builder::ShortBuf);
+        }
+        self.0.extend_from_slice(s);
+        Ok(())
+    }
+}
+impl Truncate for Lim512 {
+    fn truncate(&mut self, len: usize) {
+        self.0.truncate(len)
+    }
+}
+impl AsRef<[u8]> for Lim512 {
+    fn as_ref(&self) -> &[u8] {
+        &self.0
+    }
+}
+impl AsMut<[u8]> for Lim512 {
+    fn as_mut(&mut self) -> &mut [u8] {
+        &mut self.0
+    }
+}
+impl Composer for Lim512 {}
+
+const RESP_FLAGS: [&str; 6] = ["AA", "TC", "RD", "RA", "AD", "CD"];
+const RESP_SIZES: [&str; 4] = ["small", "tsig-fits-exactly", "one-octet-short-for-the-tsig", "target-full"];
+
+/// One response of the inner service.
+#[derive(Clone, Debug, PartialEq)]
+struct RespSpec {
+    /// bit i set: header flag RESP_FLAGS[i] set, else cleared
+    flags: u8,
+    rcode: u8,
+    /// index into RESP_SIZES
+    size: u8,
+}
+impl RespSpec {
+    fn json(&self) -> Value {
+        json!({"flags": self.flags, "rcode": self.rcode, "size": self.size})
+    }
+    fn from_json(v: &Value) -> RespSpec {
+        RespSpec { flags: v["flags"].as_u64().unwrap() as u8, rcode: v["rcode"].as_u64().unwrap() as u8, size: v["size"].as_u64().unwrap() as u8 }
+    }
+    fn no_room(&self) -> bool {
+        self.size >= 2
+    }
+}
+
+#[derive(Default)]
+struct FlagShared {
+    calls: usize,
+    keyed: bool,
+    presigns: Vec<Vec<u8>>,
+    build_err: Option<String>,
+}
+
+struct FlagSvc<T> {
+    resps: Vec<RespSpec>,
+    feedback: u8,
+    /// length of the TSIG record the key appends (computed by the harness)
+    tsig_len: usize,
+    sh: Arc<Mutex<FlagShared>>,
+    _t: std::marker::PhantomData<fn() -> T>,
+}
+impl<T> Clone for FlagSvc<T> {
+    fn clone(&self) -> Self {
+        FlagSvc { resps: self.resps.clone(), feedback: self.feedback, tsig_len: self.tsig_len, sh: self.sh.clone(), _t: std::marker::PhantomData }
+    }
+}
+
+impl<T> FlagSvc<T>
+where
+    T: Cap + Composer + Default,
+    T::AppendError: Into<octseq::builder::ShortBuf>,
+{
+    fn build(&self, request: &SrvRequest<Vec<u8>, Option<K>>, i: usize, spec: &RespSpec) -> Result<AdditionalBuilder<domain::base::StreamTarget<T>>, String> {
+        let owner = Name::<Vec<u8>>::from_str("www.example.org.").unwrap();
+        let b = mk_builder_for_target::<T>();
+        let mut a = b.start_answer(request.message(), Rcode::masked_from_int(spec.rcode)).map_err(|e| format!("start_answer: {e}"))?;
+        a.push((&owner, 3600, A::from_octets(192, 0, 2, i as u8))).map_err(|e| format!("push A: {e}"))?;
+        let want = match spec.size {
+            0 => None,
+            1 => Some(T::CAP - self.tsig_len),
+            2 => Some(T::CAP - self.tsig_len + 1),
+            _ => Some(T::CAP),
+        };
+        if let Some(want) = want {
+            // one record with the root owner (1 + 10 octets before the data)
+            let cur = a.as_slice().len();
+            if want < cur + 11 {
+                return Err(format!("cannot fill from {cur} to {want}"));
+            }
+            let data = vec![0x5Au8; want - cur - 11];
+            let rd = domain::base::rdata::UnknownRecordData::from_octets(domain::base::iana::Rtype::NULL, data).map_err(|e| format!("filler: {e}"))?;
+            a.push((Name::<Vec<u8>>::root_vec(), 0, rd)).map_err(|e| format!("push filler: {e}"))?;
+            if a.as_slice().len() != want {
+                return Err(format!("filled to {} instead of {want}", a.as_slice().len()));
+            }
+        }
+        let mut add = a.additional();
+        let h = add.header_mut();
+        h.set_aa(spec.flags & 1 != 0);
+        h.set_tc(spec.flags & 2 != 0);
+        h.set_rd(spec.flags & 4 != 0);
+        h.set_ra(spec.flags & 8 != 0);
+        h.set_ad(spec.flags & 16 != 0);
+        h.set_cd(spec.flags & 32 != 0);
+        Ok(add)
+    }
+}
+
+impl<T> Service<Vec<u8>, Option<K>> for FlagSvc<T>
+where
+    T: Cap + Composer + Default + Send + Sync + Unpin + 'static,
+    T::AppendError: Into<octseq::builder::ShortBuf>,
+{
+    type Target = T;
+    type Stream = futures_util::stream::Iter<std::vec::IntoIter<ServiceResult<T>>>;
+    type Future = std::future::Ready<Self::Stream>;
+
+    fn call(&self, request: SrvRequest<Vec<u8>, Option<K>>) -> Self::Future {
+        let mut items: Vec<ServiceResult<T>> = Vec::new();
+        let mut presigns = Vec::new();
+        let mut err = None;
+        if self.feedback == 2 {
+            items.push(Ok(CallResult::feedback_only(ServiceFeedback::BeginTransaction)));
+        }
+        for (i, spec) in self.resps.iter().enumerate() {
+            match self.build(&request, i, spec) {
+                Ok(add) => {
+                    presigns.push(add.as_slice().to_vec());
+                    let mut cr = CallResult::new(add);
+                    if self.feedback == 1 && i == 0 {
+                        cr = cr.with_feedback(ServiceFeedback::BeginTransaction);
+                    }
+                    items.push(Ok(cr));
+                }
+                Err(e) => {
+                    err = Some(e);
+                    break;
+                }
+            }
+        }
+        if self.feedback == 2 {
+            items.push(Ok(CallResult::feedback_only(ServiceFeedback::EndTransaction)));
+        }
+        let mut g = self.sh.lock().unwrap();
+        g.calls += 1;
+        g.keyed = request.metadata().is_some();
+        g.presigns = presigns;
+        g.build_err = err;
+        std::future::ready(futures_util::stream::iter(items))
+    }
+}
+
+#[derive(Clone, Debug)]
+struct MwRespCase {
+    keys: Vec<KeySpec>,
+    tcp: bool,
+    /// 0: Vec<u8>, 1: Lim512
+    target: u8,
+    /// as SvcPlan::feedback
+    feedback: u8,
+    resps: Vec<RespSpec>,
+    /// header flags of the request: bit 0 RD, bit 1 CD
+    req_flags: u8,
+    shape: usize,
+}
+impl MwRespCase {
+    fn json(&self) -> Value {
+        json!({"kind": "middleware-resp", "keys": self.keys.iter().map(|k| k.json()).collect::<Vec<_>>(), "tcp": self.tcp, "target": self.target,
+               "feedback": self.feedback, "resps": self.resps.iter().map(|r| r.json()).collect::<Vec<_>>(), "req_flags": self.req_flags, "shape": self.shape})
+    }
+    fn from_json(v: &Value) -> MwRespCase {
+        MwRespCase {
+            keys: v["keys"].as_array().unwrap().iter().map(KeySpec::from_json).collect(),
+            tcp: v["tcp"].as_bool().unwrap(),
+            target: v["target"].as_u64().unwrap() as u8,
+            feedback: v["feedback"].as_u64().unwrap() as u8,
+            resps: v["resps"].as_array().unwrap().iter().map(RespSpec::from_json).collect(),
+            req_flags: v["req_flags"].as_u64().unwrap() as u8,
+            shape: v["shape"].as_u64().unwrap() as usize,
+        }
+    }
+}
+
+type MwItem = Result<(Option<Vec<u8>>, Option<ServiceFeedback>), String>;
+
+/// Run one request through the middleware in front of `FlagSvc<T>`.
+fn drive_flag_svc<T>(svc: FlagSvc<T>, libs: &[K], req: SrvRequest<Vec<u8>, ()>) -> Result<Option<Vec<MwItem>>, String>
+where
+    T: Cap + Composer + Default + Send + Sync + Unpin + 'static,
+    T::AppendError: Into<octseq::builder::ShortBuf>,
+{
+    fn drive<T: AsRef<[u8]>>(mut st: Pin<Box<dyn futures_util::Stream<Item = ServiceResult<T>> + Send + '_>>) -> Option<Vec<MwItem>> {
+        let mut items: Vec<MwItem> = Vec::new();
+        loop {
+            match st.next().now_or_never() {
+                None => return None,
+                Some(None) => break,
+                Some(Some(Ok(cr))) => {
+                    let (resp, fb) = cr.into_inner();
+                    items.push(Ok((resp.map(|r| r.as_slice().to_vec()), fb)));
+                }
+                Some(Some(Err(e))) => items.push(Err(format!("{e}"))),
+            }
+            if items.len() > 16 {
+                break;
+            }
+        }
+        Some(items)
+    }
+    guard(|| {
+        if libs.len() == 1 {
+            let mw = TsigMiddlewareSvc::<Vec<u8>, FlagSvc<T>, K, ()>::new(svc, libs[0].clone());
+            mw.call(req).now_or_never().and_then(|st| drive(Box::pin(st)))
+        } else {
+            let mut h: HashMap<(KeyName, Algorithm), K> = HashMap::new();
+            for k in libs {
+                h.insert((k.name().clone(), k.algorithm()), k.clone());
+            }
+            let mw = TsigMiddlewareSvc::<Vec<u8>, FlagSvc<T>, HashMap<(KeyName, Algorithm), K>, ()>::new(svc, h);
+            mw.call(req).now_or_never().and_then(|st| drive(Box::pin(st)))
+        }
+    })
+}
+
+/// One honest signed request through the middleware; what comes back is
+/// given to the reference client.
+fn middleware_resp_case(ctx: &Ctx, l: &mut Local, c: &MwRespCase) {
+    let replay = || c.json();
+    let refstore: Vec<RefKey> = c.keys.iter().map(|k| k.refkey()).collect();
+    let libs: Vec<K> = match c.keys.iter().map(|k| k.lib()).collect::<Result<Result<Vec<_>, _>, _>>() {
+        Ok(Ok(v)) => v,
+        _ => return,
+    };
+    let rk = &refstore[0];
+    if rk.sign < rk.min {
+        // the honest client's own policy refuses the MACs this key makes
+        return;
+    }
+    let now = real_now();
+    let mut presign_req = shape(c.shape, false, 0x2B2B, 0, 7);
+    presign_req[2] = (presign_req[2] & !0x01) | (c.req_flags & 1);
+    presign_req[3] = (presign_req[3] & !0x10) | ((c.req_flags & 2) << 3);
+    let (reqmsg, reqmac) = ref_sign(rk, &[], &presign_req, false, now, 300, 0, &[]);
+    let qlen = qname().len() + 4;
+    l.evals += 1;
+    l.transitions += 1;
+    l.states += 1;
+    let sh = Arc::new(Mutex::new(FlagShared::default()));
+    let tctx = if c.tcp { NonUdpTransportContext::new(None).into() } else { UdpTransportContext::new(None).into() };
+    let request = SrvRequest::new("192.0.2.7:5353".parse().unwrap(), tokio::time::Instant::now(), Message::from_octets(reqmsg.clone()).unwrap(), tctx, ());
+    let tsig_len = ref_tsig_rr_len(rk);
+    let out = if c.target == 0 {
+        drive_flag_svc(FlagSvc::<Vec<u8>> { resps: c.resps.clone(), feedback: c.feedback, tsig_len, sh: sh.clone(), _t: std::marker::PhantomData }, &libs, request)
+    } else {
+        drive_flag_svc(FlagSvc::<Lim512> { resps: c.resps.clone(), feedback: c.feedback, tsig_len, sh: sh.clone(), _t: std::marker::PhantomData }, &libs, request)
+    };
+    let t1 = real_now();
+    let items = match out {
+        Err(p) => {
+            report_panic(ctx, "middleware", "call", "inner-response-flags-and-sizes", &p, &replay);
+            return;
+        }
+        Ok(None) => {
+            violate(ctx, "C11|middleware|call|stream-not-ready-with-a-ready-service", "the middleware stream did not complete although the service answered immediately", &replay);
+            return;
+        }
+        Ok(Some(i)) => i,
+    };
+    let g = sh.lock().unwrap();
+    if let Some(e) = &g.build_err {
+        violate(ctx, "C11|machinery|inner-service-could-not-build-its-response", e, &replay);
+        return;
+    }
+    if g.calls != 1 || !g.keyed {
+        violate(ctx, "C11|middleware|call|honest-signed-request|expected passed on with its key|observed not", &format!("service called {} time(s), key in the metadata: {}", g.calls, g.keyed), &replay);
+        return;
+    }
+    if let Some(Err(e)) = items.iter().find(|i| i.is_err()) {
+        violate(ctx, "C11|middleware|call|inner-response-flags-and-sizes|expected every response signed or replaced|observed error item", &format!("the middleware produced an error item: {e}"), &replay);
+        return;
+    }
+    let responses: Vec<&Vec<u8>> = items.iter().filter_map(|i| i.as_ref().ok().and_then(|(r, _)| r.as_ref())).collect();
+    if responses.len() != c.resps.len() {
+        violate(ctx, "C11|middleware|call|number-of-responses", &format!("{} responses from the service, {} from the middleware", c.resps.len(), responses.len()), &replay);
+        return;
+    }
+    let sequence = c.feedback != 0;
+    let mut rc = RefClient::new(rk, sequence, &reqmac);
+    for (i, r) in responses.iter().enumerate() {
+        let spec = &c.resps[i];
+        let op = format!("{}({})", if !sequence { "single-response" } else if i == 0 { "stream-first-response" } else { "stream-subsequent-response" }, RESP_SIZES[spec.size as usize]);
+        l.evals += 1;
+        l.transitions += 1;
+        l.distinct.push(fnv(format!("mwresp{:?}{}", c, i).as_bytes()));
+        // keeps ID and question (RFC 1035; RFC 8945 5.3 for the replacement)
+        if r.len() < 12 + qlen || get16(r, 0) != 0x2B2B || get16(r, 4) != 1 || r[12..12 + qlen] != presign_req[12..12 + qlen] || r[2] & 0x80 == 0 {
+            violate(ctx, &format!("C11|middleware|{op}|response-header|expected response with the ID and question of the request|observed other"), "the response does not carry QR, the ID and the question of the request", &replay);
+            return;
+        }
+        let (exp, commit) = rc.expect(r, t1);
+        l.ref_cls[4][exp.primary as usize] += 1;
+        if exp.primary != Cls::Accept {
+            violate(
+                ctx,
+                &format!("C11|middleware|{op}|verification-by-an-independent-client|expected Accept|observed {}", CLS_NAMES[exp.primary as usize]),
+                &format!("the response the middleware emitted for an honest signed request does not verify at an RFC 8945 client holding the request MAC ({}); inner response flags {:?} rcode {}", exp.cause, (0..6).filter(|b| spec.flags >> b & 1 == 1).map(|b| RESP_FLAGS[b]).collect::<Vec<_>>(), spec.rcode),
+                &replay,
+            );
+            return;
+        }
+        match &commit {
+            Commit::Signed { stripped, .. } => {
+                if !spec.no_room() {
+                    // there was room: the service's response, unchanged
+                    if stripped[..] != g.presigns[i][..] {
+                        violate(ctx, &format!("C11|middleware|{op}|signed-output|message-octets-changed"), "the verified response differs from what the service answered although the TSIG record fitted", &replay);
+                        return;
+                    }
+                    l.c("middleware flags x sizes: signed response verifies and equals the service's");
+                } else {
+                    // RFC 8945 5.3: only the question and a TSIG, TC set, RCODE 0
+                    let ok = stripped.len() == 12 + qlen && stripped[2] & 0x02 != 0 && stripped[3] & 0x0F == 0 && stripped[2] & 0x78 == presign_req[2] & 0x78
+                        && get16(stripped, 6) == 0 && get16(stripped, 8) == 0 && get16(stripped, 10) == 0;
+                    if !ok {
+                        violate(ctx, &format!("C11|middleware|{op}|replacement-response|expected question+TSIG with TC and RCODE 0|observed other"), "RFC 8945 5.3: a response that leaves no room for the TSIG is replaced by question + TSIG, TC set, RCODE 0", &replay);
+                        return;
+                    }
+                    l.c("middleware flags x sizes: no room, replacement verifies (question+TSIG, TC, RCODE 0)");
+                }
+            }
+            Commit::Unsigned => {
+                // an unsigned intermediate message of a stream (permitted up to 99 in a row)
+                if r[..] != g.presigns[i][..] || spec.no_room() {
+                    violate(ctx, &format!("C11|middleware|{op}|unsigned-intermediate|message-modified"), "an unsigned intermediate response differs from what the service answered", &replay);
+                    return;
+                }
+                l.c("middleware flags x sizes: unsigned intermediate response");
+            }
+            Commit::None => return,
+        }
+        l.lib_cls[4][Cls::Accept as usize] += 1;
+        rc.commit(&commit, r);
+    }
+    if sequence && !(rc.run == 0 && !rc.first) {
+        violate(ctx, "C11|middleware|stream-last-response|expected signed|observed unsigned", "the last response of a stream must carry a TSIG", &replay);
+    }
+}
+
+fn run_middleware_responses(ctx: &Arc<Ctx>, g: &Glob, wd: &Watchdog) -> Value {
+    let quick = ctx.quick();
+    let kvs = key_variants(quick, true);
+    let counts = Mutex::new(BTreeMap::<&'static str, u64>::new());
+    let bump = |k: &'static str, n: u64| *counts.lock().unwrap().entry(k).or_insert(0) += n;
+    // none, every flag alone, all
+    let few_flags: Vec<u8> = std::iter::once(0u8).chain((0..6).map(|b| 1u8 << b)).chain(std::iter::once(63u8)).collect();
+    let all_flags: Vec<u8> = (0..64u8).collect();
+    let rcodes: &[u8] = if quick { &[0, 3] } else { &[0, 2, 3, 5] };
+    kvs.par_iter().for_each(|kv| {
+        if kv.sign.unwrap_or(kv.alg.native()) < kv.min.unwrap_or(kv.alg.native()) {
+            return;
+        }
+        wd.enter(|| json!({"kind": "job", "runner": "middleware-responses", "key": kv.json()}));
+        let mut l = Local::default();
+        let single = vec![kv.clone()];
+        let multi = other_keys(kv);
+        // (f) single response: the full product on the bounded target, the
+        // flag menu {none, each alone, all} on the 65535-octet target
+        for target in [1u8, 0] {
+            let flags = if target == 1 || !quick { &all_flags } else { &few_flags };
+            for &f in flags {
+                for &rcode in rcodes {
+                    for size in 0..4u8 {
+                        for tcp in [false, true] {
+                            // the replacement is made from the request: vary it where it is used
+                            let reqs: &[u8] = if size >= 2 || !quick { &[1, 0, 3] } else { &[1] };
+                            for &req_flags in reqs {
+                                let stores: &[&Vec<KeySpec>] = if !quick || (target == 1 && few_flags.contains(&f) && req_flags == 1) { &[&single, &multi] } else { &[&single] };
+                                for keys in stores {
+                                    middleware_resp_case(ctx, &mut l, &MwRespCase { keys: (*keys).clone(), tcp, target, feedback: 0, resps: vec![RespSpec { flags: f, rcode, size }], req_flags, shape: if f % 2 == 0 { 0 } else { 2 } });
+                                    bump(if target == 1 { "single response, bounded target: flags x rcode x size x transport x request flags" } else { "single response, 65535-octet target: flags x rcode x size x transport x request flags" }, 1);
+                                }
+                            }
+                        }
+                    }
+                }
+            }
+        }
+        // (g) streams of 3 responses: every size pattern x flag menu x announcement form
+        for target in [1u8, 0] {
+            let patterns: Vec<[u8; 3]> = if target == 1 || !quick {
+                (0..64u8).map(|p| [p & 3, (p >> 2) & 3, (p >> 4) & 3]).collect()
+            } else {
+                vec![[1, 0, 0], [2, 0, 0], [0, 2, 0], [0, 0, 2], [3, 2, 1], [2, 2, 2]]
+            };
+            let flags: Vec<u8> = if target == 1 { few_flags.clone() } else if quick { vec![0, 1, 63] } else { few_flags.clone() };
+            for p in &patterns {
+                for &f in &flags {
+                    for feedback in [1u8, 2] {
+                        for tcp in if quick { vec![true] } else { vec![true, false] } {
+                            // the flags rotate over the responses so that neighbours differ
+                            let resps: Vec<RespSpec> = (0..3).map(|i| RespSpec { flags: ((f << i) | (f >> (6 - i))) & 63, rcode: if i == 2 { rcodes[1] } else { 0 }, size: p[i] }).collect();
+                            middleware_resp_case(ctx, &mut l, &MwRespCase { keys: if p[0] % 2 == 0 { single.clone() } else { multi.clone() }, tcp, target, feedback, resps, req_flags: 1, shape: 0 });
+                            bump(if target == 1 { "stream of 3, bounded target: size patterns x flags x announcement" } else { "stream of 3, 65535-octet target: size patterns x flags x announcement" }, 1);
+                        }
+                    }
+                }
+            }
+        }
+        g.merge(l);
+        wd.leave();
+    });
+    g_sample(|| json!({"runner": "middleware-responses", "what": "TsigMiddlewareSvc::call over a service that answers with chosen header flags, rcode and size; every emitted response is verified by the reference client (RFC 8945 5.3) holding the request MAC, in order; ID, QR and question must be those of the request; where the TSIG fits the verified response equals the service's, where it does not the replacement is question + TSIG with TC and RCODE 0 (other header flags of the replacement are left to the implementation)",
+        "flags": RESP_FLAGS, "sizes": RESP_SIZES, "targets": [<Vec<u8> as Cap>::NAME, <Lim512 as Cap>::NAME], "rcodes": rcodes,
+        "request_flags": ["RD", "none", "RD+CD"]}));
+    json!(counts.into_inner().unwrap())
+}
+
+// ---------------------------------------------------------------------
 // Remaining entry points: Key::generate, a plain `Key` as key and store
 // type, the Arc<HashMap<_, Key>> store, Algorithm <-> text
 // ---------------------------------------------------------------------
@@ -3664,6 +4274,9 @@ fn run_replay(ctx: &Arc<Ctx>, path: &str) -> ! {
         "middleware" => {
             middleware_case(ctx, &mut l, &MwCase::from_json(case));
         }
+        "middleware-resp" => {
+            middleware_resp_case(ctx, &mut l, &MwRespCase::from_json(case));
+        }
         "key_misc" => {
             key_misc_case(ctx, &mut l, Alg::from_idx(case["alg"].as_u64().unwrap() as usize), case["min"].as_u64().map(|x| x as usize), case["sign"].as_u64().map(|x| x as usize));
         }
@@ -3742,6 +4355,7 @@ fn main() {
     run_key_misc(&ctx, &g);
     let tinfo = run_client_transport(&ctx, &g, &wd);
     let minfo = run_middleware(&ctx, &g, &wd);
+    let rinfo = run_middleware_responses(&ctx, &g, &wd);
 
     let quick = ctx.quick();
     let transitions = g.transitions.load(AO::Relaxed);
@@ -3777,10 +4391,12 @@ fn main() {
                 "server_sequence_lengths": if quick { "1..=4" } else { "1..=8" },
                 "mutations": mutinfo,
                 "other_entry_points": "Key::generate over {None, floor-1, floor, native, native+1}^2 per algorithm, the generated key used as plain `Key` (key type and single-key store) and in an Arc<HashMap<_, Key>> store against all structural mutations; ClientTransaction::request with the default fudge; Algorithm from_str/Display",
-                "client_transport_bounds": if quick { "single answer: 2 request shapes x 3 compose paths x 4 request modifications by the upstream x 5 clock offsets, plus every bit and structural mutation of the answer; streams: every pattern over {S,U,Replay,BadMac,Time,WrongSecret} <=4 (prefix-closed) x 2 compose paths, every bit and structural mutation of the 2nd message after S and of the 3rd after S U, S U^k (S) for k in 98..=100, end of stream after every accepted pattern" } else { "as quick, patterns <=5" },
+                "client_transport_bounds": if quick { "single answer: 2 request shapes x 3 compose paths x 4 request modifications by the upstream x 5 clock offsets, plus every bit and structural mutation of the answer; streams: every pattern over {S,U,Replay,BadMac,Time,WrongSecret} <=4 (prefix-closed) x 2 compose paths, every bit and structural mutation of the 2nd message after S and of the 3rd after S U, S U^k (S) for k in 98..=100, end of stream after every accepted pattern; request composed 2x and 3x by the upstream (72 plans over {header unchanged, new ID} x {on the request, on a dropped clone} x 2 compose paths) x answer to the last / an earlier composition x {honest, bad MAC} x {single, stream S, stream S U S}" } else { "as quick, patterns <=5; re-composition plans over 3 compose paths x 4 first compositions" },
                 "middleware_bounds": "8 service plans (1,3,4 responses; BeginTransaction attached / feedback-only; a response that leaves no room for the TSIG at position 0,1,2) x {single-key store, 5-key HashMap store} x 3 request shapes x {signed, unsigned}; clock offsets x {UDP, TCP}; wrong secret; every bit and structural mutation of the request",
+                "middleware_inner_response_bounds": if quick { "single response: bounded 512-octet target: all 64 combinations of AA,TC,RD,RA,AD,CD x rcode {0,3} x 4 size classes (small, TSIG fits exactly, one octet short, target full) x {UDP,TCP} x request flags {RD, none, RD+CD} where the replacement is built; 65535-octet target: flags {none, each alone, all}; streams of 3 responses: all 64 size patterns (bounded target; 6 patterns on the 65535-octet target) x flag menu (rotated over the responses) x {BeginTransaction attached, feedback-only}; single-key and 5-key stores; keys whose own policy accepts their MACs" } else { "as quick with the full flag product on both targets, rcode {0,2,3,5}, both stores and both transports everywhere" },
                 "client_transport(net::client::tsig)": tinfo,
                 "server_middleware(TsigMiddlewareSvc)": minfo,
+                "server_middleware_inner_responses": rinfo,
             },
             "verdict_histogram_library": g.hist(&g.lib_cls),
             "verdict_histogram_reference": g.hist(&g.ref_cls),
@@ -3801,6 +4417,8 @@ fn main() {
             "single-bit flips are first-order: pairs of flips are not enumerated",
             "net::client::tsig::Connection and TsigMiddlewareSvc read the wall clock (Time48::now()); there the reference signs relative to the real time, the time signed of every library-made TSIG must lie between the readings taken before and after the call, and clock offsets are {-400,-200,0,+200,+400} s (the exact fudge edges are decided at the state machines, which take `now`)",
             "through the two transport wrappers the structural mutations that re-sign at the fudge edge and the two other-data mutations (a recorded finding at the state-machine level) are left out",
+            "a request composed several times by the upstream: the client is expected to hold the state of the composition made last (those octets went out last); an answer to an earlier composition is judged by the reference client holding the last request MAC (accepted only if the octets were identical)",
+            "inner-response product of the middleware: the header flags other than TC and RCODE of the RFC 8945 5.3 replacement response are not prescribed; it must verify, keep ID/QR/opcode/question, carry nothing but the question and the TSIG",
             "the middleware is driven with services that announce a multi-response answer (BeginTransaction attached to the first response, or as feedback-only items like the XFR service); several responses without that announcement are a contract violation of the service and are not driven",
         ],
     );
